@@ -29,6 +29,15 @@ theorem find_is_least_checkpoint_at_or_above (vs : List Nat) (hs : vs.Pairwise (
     (∀ c, find vs version = some c → c ∈ vs ∧ version ≤ c ∧ ∀ d ∈ vs, version ≤ d → c ≤ d) :=
   find_spec vs hs version
 
+/-- **every committed version has a checkpoint less than one interval below it**: under `SaveVersion`'s checkpoint
+    rule (version 1, or `interval` versions after the last checkpoint; memory pressure and explicit requests only
+    add checkpoints - `extra`), `FindPrevious` never answers -1 for a committed version and a load never replays
+    `interval` versions or more -/
+theorem every_version_has_a_checkpoint_within_the_interval (interval : Nat) (hi : 0 < interval) (extra : Nat → Bool)
+    (n v : Nat) (hv1 : 1 ≤ v) (hvn : v ≤ n) :
+    ∃ c, findPrevious (autoCkpts interval extra n) v = some c ∧ c ≤ v ∧ v - c < interval :=
+  checkpoint_within_interval interval hi extra n v hv1 hvn
+
 /-- **loading a version by checkpoint and replay reproduces it**: for every history of commits (any writes,
     any checkpoint placement), replaying the stored rows of the versions in `(c, v]`, in stored order, on the
     state of `c` yields the state of `v` — for every way `apply` acts on a state (the tree operations of
